@@ -312,3 +312,33 @@ Example not_wf_fails :
   /\ write_tar [Node n_e (mkst (ModeSocket + 420) 0 0 0 0 [] 0 0 []) [] []] = TarErr 0
   /\ write_tar [Node n_e (mkst 420 0 0 0 0 [] 0 0 [([97; 61; 98], [1])]) [] []] = TarErr 0.
 Proof. vm_compute. repeat split; reflexivity. Qed.
+
+(* ---- source equivalences (tools/go2coq; gen/SrcFns.v is regenerated from /repo on every run): the
+        methods of fs.go's StatInfo — the os.FileInfo that WriteTar hands to tar.FileInfoHeader — as
+        translated from the source.  ModTime: the (sec, nsec) pair given to time.Unix, computed with Go's
+        truncating / and % on the signed int64 (Prims.i64_quot / i64_rem), denotes exactly the instant
+        Stat.ModTime ns after the epoch (what h_mtime / round_ns take it to be), with |nsec| < 1e9 and
+        the sign of the dividend; Size, Mode, IsDir are the field / the model predicate ---- *)
+From FSGen Require SrcFns.
+From FS Require Src.Prims Proofs.Src.StatInfoModTimeEq Proofs.Src.StatInfoSizeEq Proofs.Src.StatInfoModeEq Proofs.Src.StatInfoIsDirEq.
+Theorem StatInfo_ModTime_src_eq : forall s,
+  let t := SrcFns.StatInfo_ModTime s in
+  let m := Prims.sint64 (st_mtime (SrcFns.StatInfo_Stat s)) in
+  Prims.time_ns t = m /\
+  (Z.abs (Prims.sint64 (snd t)) < 1000000000)%Z /\ (0 <= Prims.sint64 (snd t) * m)%Z.
+Proof. exact StatInfoModTimeEq.StatInfo_ModTime_src_eq. Qed.
+Theorem StatInfo_ModTime_is_model_instant : forall s,
+  (st_mtime (SrcFns.StatInfo_Stat s) < 18446744073709551616)%N ->
+  Prims.time_ns (SrcFns.StatInfo_ModTime s) = sint (st_mtime (SrcFns.StatInfo_Stat s)).
+Proof. exact StatInfoModTimeEq.StatInfo_ModTime_is_model_instant. Qed.
+Theorem StatInfo_Size_src_eq : forall s, SrcFns.StatInfo_Size s = st_size (SrcFns.StatInfo_Stat s).
+Proof. exact StatInfoSizeEq.StatInfo_Size_src_eq. Qed.
+Theorem StatInfo_Mode_src_eq : forall s, SrcFns.StatInfo_Mode s = st_mode (SrcFns.StatInfo_Stat s).
+Proof. exact StatInfoModeEq.StatInfo_Mode_src_eq. Qed.
+Theorem StatInfo_IsDir_src_eq : forall s, SrcFns.StatInfo_IsDir s = st_is_dir (SrcFns.StatInfo_Stat s).
+Proof. exact StatInfoIsDirEq.StatInfo_IsDir_src_eq. Qed.
+Print Assumptions StatInfo_ModTime_src_eq.
+Print Assumptions StatInfo_ModTime_is_model_instant.
+Print Assumptions StatInfo_Size_src_eq.
+Print Assumptions StatInfo_Mode_src_eq.
+Print Assumptions StatInfo_IsDir_src_eq.
